@@ -63,6 +63,7 @@ func TestC05_UniqueStoreNeverHoldsDuplicates(t *testing.T) {
 		default:
 			schedule = genSchedule(t, nw)
 		}
+		coldFinal := rapid.Bool().Draw(t, "coldFinalReader")
 		uuidSeed := rapid.Uint64().Draw(t, "uuidSeed")
 		e, err := txh.NewEnv(rapid.SampledFrom([]int{1, 3, 16}).Draw(t, "hashMod"))
 		if err != nil {
@@ -93,6 +94,10 @@ func TestC05_UniqueStoreNeverHoldsDuplicates(t *testing.T) {
 		if s.Gated > 0 {
 			rec.Exclude("a commit was held back until no other transaction was in the middle of its operations (known finding: inconsistent snapshot while others commit)")
 		}
+		if coldFinal {
+			// the final reader is another process / a later time: nothing of the node caches is left
+			e.EvictNodeCaches()
+		}
 		d, err := e.Dump(stores, sop.ForReading)
 		if err != nil {
 			t.Fatalf("fresh reader afterwards: %v\n%s", err, desc)
@@ -107,7 +112,11 @@ func TestC05_UniqueStoreNeverHoldsDuplicates(t *testing.T) {
 				t.Fatalf("unique store scan is not strictly increasing: key %d follows key %d (items %v)\n%s", items[i].K, items[i-1].K, txh.Canon(items), desc)
 			}
 		}
-		if d[0].Count != int64(len(items)) {
+		if empty && d[0].Count != int64(len(items)) {
+			// README, "Important Requirement for First Commit": concurrent first commits into an empty tree are outside
+			// the supported use (one initialisation may overwrite the other, "random drop"); uniqueness is still judged
+			rec.Label("emptyStoreRace:countOffAfterDroppedInitialisation")
+		} else if d[0].Count != int64(len(items)) {
 			t.Fatalf("Count()=%d but the scan returns %d items\n%s", d[0].Count, len(items), desc)
 		}
 		// non-trivial: same key inserted by two transactions that reached commit
